@@ -8,6 +8,7 @@ package main
 
 import (
 	"fmt"
+	"go/constant"
 	"go/token"
 	"go/types"
 	"sort"
@@ -186,6 +187,16 @@ func runEnumDecoders(c *Ctx, fns []*ssa.Function, rule string) {
 	}
 }
 
+// isLenOf: v is len(of).
+func isLenOf(v ssa.Value, of ssa.Value) bool {
+	call, ok := v.(*ssa.Call)
+	if !ok {
+		return false
+	}
+	b, isB := call.Call.Value.(*ssa.Builtin)
+	return isB && b.Name() == "len" && len(call.Call.Args) == 1 && call.Call.Args[0] == of
+}
+
 // NUM: numbers in CSV cells are decimal. Every strconv.ParseInt / ParseUint reached from the static parser is called
 // with the constant base 10 (base 0 reads a leading zero as octal and 0x as hexadecimal: "0600" becomes 384, "08"
 // is rejected), and every ParseFloat with bit size 64.
@@ -225,7 +236,7 @@ func runNumericDecoders(c *Ctx, fns []*ssa.Function, rule string) {
 									switch y := r2.(type) {
 									case *ssa.Convert:
 										if bt, ok := y.Type().Underlying().(*types.Basic); ok && bt.Info()&types.IsInteger != 0 {
-											w := int64(0)
+											w := int64(64)
 											switch bt.Kind() {
 											case types.Int8, types.Uint8:
 												w = 8
@@ -234,8 +245,15 @@ func runNumericDecoders(c *Ctx, fns []*ssa.Function, rule string) {
 											case types.Int32, types.Uint32:
 												w = 32
 											}
-											if w != 0 && w < bits {
+											if w < bits {
 												return fmt.Sprintf("parsed with %d bits and then converted to %s at %s", bits, bt.Name(), p.ipos(y))
+											}
+											unsignedTarget := bt.Info()&types.IsUnsigned != 0
+											if name == "strconv.ParseUint" && !unsignedTarget && w <= bits {
+												return fmt.Sprintf("parsed as an unsigned number of %d bits and then converted to the signed %s at %s (the upper half of the range wraps to negative numbers)", bits, bt.Name(), p.ipos(y))
+											}
+											if name == "strconv.ParseInt" && unsignedTarget {
+												return fmt.Sprintf("parsed as a signed number and then converted to the unsigned %s at %s (negative numbers wrap)", bt.Name(), p.ipos(y))
 											}
 										}
 									case *ssa.Phi:
@@ -260,6 +278,110 @@ func runNumericDecoders(c *Ctx, fns []*ssa.Function, rule string) {
 		}
 	}
 	c.Stats[rule+" numeric parse calls"] = n
+	// a number decoder answers "no value" only for the empty cell or for what strconv rejects: a further test of the
+	// parsed number (zero, negative, "implausible") drops a valid value for every caller of the decoder
+	for _, f := range fns {
+		if len(f.Blocks) == 0 || len(f.Params) != 1 || len(naturalLoops(f)) > 0 {
+			continue
+		}
+		if bt, ok := f.Params[0].Type().Underlying().(*types.Basic); !ok || bt.Info()&types.IsString == 0 {
+			continue
+		}
+		parses := false
+		for _, b := range f.Blocks {
+			for _, in := range b.Instrs {
+				if call, ok := in.(*ssa.Call); ok {
+					switch calleeName(call) {
+					case "strconv.ParseInt", "strconv.ParseUint", "strconv.ParseFloat", "strconv.Atoi":
+						parses = true
+					}
+				}
+			}
+		}
+		if !parses {
+			continue
+		}
+		res := f.Signature.Results()
+		noValue := func(ret *ssa.Return) bool {
+			for i := 0; i < res.Len(); i++ {
+				switch t := res.At(i).Type().Underlying().(type) {
+				case *types.Pointer:
+					if k, isK := ret.Results[i].(*ssa.Const); isK && k.IsNil() {
+						return true
+					}
+				case *types.Basic:
+					if t.Kind() == types.Bool {
+						if bv, isC := constBool(ret.Results[i]); isC && !bv {
+							return true
+						}
+					}
+				}
+			}
+			return false
+		}
+		hasAnswer := false
+		for i := 0; i < res.Len(); i++ {
+			switch t := res.At(i).Type().Underlying().(type) {
+			case *types.Pointer:
+				hasAnswer = true
+			case *types.Basic:
+				if t.Kind() == types.Bool {
+					hasAnswer = true
+				}
+			}
+		}
+		if !hasAnswer {
+			continue
+		}
+		bad := ""
+		enumPaths(f, func(path []*ssa.BasicBlock) {
+			if bad != "" {
+				return
+			}
+			last := path[len(path)-1]
+			ret, ok := last.Instrs[len(last.Instrs)-1].(*ssa.Return)
+			if !ok || !noValue(ret) {
+				return
+			}
+			for i := range path {
+				cond, _, ok := edgeTaken(path, i, nil)
+				if !ok {
+					continue
+				}
+				for {
+					u, isNot := cond.(*ssa.UnOp)
+					if !isNot || u.Op != token.NOT {
+						break
+					}
+					cond = u.X
+				}
+				bo, isBin := cond.(*ssa.BinOp)
+				if !isBin {
+					if in, isIn := cond.(ssa.Instruction); isIn {
+						bad = "the test at " + p.ipos(in)
+					}
+					return
+				}
+				x, y := bo.X, bo.Y
+				if _, isK := x.(*ssa.Const); isK {
+					x, y = y, x
+				}
+				k, isK := y.(*ssa.Const)
+				switch {
+				case isK && k.IsNil() && presenceOperand(x):
+					// strconv's error
+				case isK && x == ssa.Value(f.Params[0]) && k.Value != nil && k.Value.Kind() == constant.String && constant.StringVal(k.Value) == "":
+					// the empty cell
+				case isK && isLenOf(x, f.Params[0]):
+					// the empty cell, as a length
+				default:
+					bad = "the comparison at " + p.ipos(bo)
+					return
+				}
+			}
+		})
+		c.Check(bad == "", rule, shortName(f), "no value only for the empty cell or what strconv rejects", p.pos(f.Pos()), "every path that answers `no value` took only the empty-cell test and the test of strconv's error", "a number that strconv accepts is dropped by a further test: "+bad+" (every caller of the decoder loses the value: zero or negative sequence numbers, transfer times, distances)")
+	}
 	// a decimal cell is turned into a float64 by strconv.ParseFloat only: a decoder of the parser that takes text and
 	// answers with a float64 (or a pointer to one) returns ParseFloat's result as it is. A value put together by the
 	// decoder's own arithmetic (digits accumulated in an integer and scaled by a power of ten, a float32 detour) is
